@@ -555,7 +555,11 @@ func (e *ctlEnv) buildDatagram(ev *event) []byte {
 		if ev.node != "" {
 			ies = append(ies, e.nodeIE(ev.node))
 		}
-		ies = append(ies, ts)
+		if ev.rts != 0 {
+			ies = append(ies, ie.NewRecoveryTimeStamp(time.Unix(1700000000+int64(ev.rts), 0)))
+		} else {
+			ies = append(ies, ts)
+		}
 		m = message.NewAssociationSetupRequest(ev.seq, ies...)
 	case "est":
 		var ies []*ie.IE
